@@ -204,4 +204,65 @@ structure VFeatEdge where
   a : Nat
   b : Nat
 
+/-- what the vertex loop of the face-based `flag_singularities` must see at `v`: for every edge incident to `v`, its other end and its rotation -/
+def incidentPairs (es : List REdge) (v : Nat) : List (Nat × Rat) :=
+  es.filterMap (fun x => if x.a = v then some (x.b, x.rot) else if x.b = v then some (x.a, x.rot) else none)
+
+/-! ## the vertex-based `flag_singularities` (angles in TURNS) -/
+/-- the python dict `edge_rot` keyed by directed vertex pairs (a missing key reads 0; the source never reads one) -/
+abbrev Dict := Nat → Nat → Rat
+/-- `d[(u,v)] = x` -/
+def dset (d : Dict) (u v : Nat) (x : Rat) : Dict := fun p q => if p = u ∧ q = v then x else d p q
+
+structure FlagVertsIn where
+  order : Nat
+  /-- `enumerate(mesh.edges)`: `(ie, A, B)` -/
+  edges : List (Nat × Nat × Nat)
+  /-- `enumerate(mesh.faces)`: `(id_face, A, B, C)` -/
+  faces : List (Nat × Nat × Nat × Nat)
+  /-- phase of `var[v]` -/
+  theta : Nat → Rat
+  /-- `conn.transport(a, b)` -/
+  tr : Nat → Nat → Rat
+  /-- `parallel_transport_curvature(mesh, conn)[id_face]` -/
+  curv : Nat → Rat
+  /-- `ZERO_THRESHOLD / 2π` -/
+  thrTurns : Rat
+
+/-- the data of the matching on edge `(A,B)` -/
+def vedgeOf (P : FlagVertsIn) (A B : Nat) : FFV.VEdge :=
+  { a := A, b := B, thA := P.theta A, aA := P.tr A B, thB := P.theta B, aB := P.tr B A }
+
+/-- the matched rotations, edge by edge (round-2 model `FFV.edgeRotV`) -/
+def resM (P : FlagVertsIn) : List FFV.RE := P.edges.map (fun it => (vedgeOf P it.2.1 it.2.2).toRE P.order)
+
+/-- the dict the loop builds from them -/
+def dictOfM (es : List FFV.RE) : Dict := es.foldl (fun d e => dset (dset d e.a e.b e.r) e.b e.a (-e.r)) (fun _ _ => 0)
+
+/-- the writes into the `angles` edge attribute -/
+def attrWritesM (P : FlagVertsIn) : FFH.Attr := P.edges.map (fun it => (it.1, -(FFV.edgeRotV P.order (vedgeOf P it.2.1 it.2.2))))
+
+/-- holonomy of the dict around a face + curvature, as the source accumulates it -/
+def faceAngleAdjM (d : Dict) (curv : Nat → Rat) (it : Nat × Nat × Nat × Nat) : Rat :=
+  (((0 + d it.2.1 it.2.2.1) + d it.2.2.1 it.2.2.2) + d it.2.2.2 it.2.1) + curv it.1
+
+def singulsVM (P : FlagVertsIn) (d : Dict) : FFH.Attr :=
+  P.faces.filterMap (fun it =>
+    if P.thrTurns < faceAngleAdjM d P.curv it then some (it.1, 1)
+    else if faceAngleAdjM d P.curv it < -P.thrTurns then some (it.1, -1) else none)
+
+/-! ## the vertex-based `_initialize_variables`: contract of `abs`, contributions in code order -/
+/-- what `abs` of a complex number is: non-negative, and its square is the squared modulus -/
+structure AbsContract (N : Num) : Prop where
+  nonneg : ∀ z, 0 ≤ N.abs z
+  sq : ∀ z, N.abs z * N.abs z = normSq z
+
+/-- guarded (projection) branch: for every feature edge first `B` then `A`, each with the normalised projection of the edge -/
+def contribsGuarded (N : Num) (proj : Nat → Nat → Cpx) (fes : List VFeatEdge) : List (Nat × Cpx) :=
+  (fes.map (fun e => [(e.b, cdivR (proj e.id e.b) (N.abs (proj e.id e.b))), (e.a, cdivR (proj e.id e.a) (N.abs (proj e.id e.a)))])).flatten
+
+/-- transport branch: `A` with `rect(1, transport(A,B))`, then `B` with `rect(1, transport(B,A))` -/
+def contribsPlain (rect : Nat → Nat → Cpx) (fes : List VFeatEdge) : List (Nat × Cpx) :=
+  (fes.map (fun e => [(e.a, rect e.a e.b), (e.b, rect e.b e.a)])).flatten
+
 end Mouette.FFS
